@@ -8,7 +8,7 @@ from .common import ScriptedApp, build_request, token_body, AppExc
 
 PROPERTY = "C03"
 LEVEL = "exploration"
-BUDGET = {"quick": 30, "thorough": 600}
+BUDGET = {"quick": 40, "thorough": 600}
 SERVER_FIELDS = {"date", "server", "via", "connection", "content-length", "transfer-encoding"}
 EVIDENCE = {
     "rule": "pipelines of 1-3 requests; per request an application script: kind list/generator/write()/wsgi.file_wrapper "
